@@ -15,6 +15,7 @@ import (
 
 	"github.com/fiorix/go-diameter/v4/diam"
 	"github.com/fiorix/go-diameter/v4/diam/dict"
+	"github.com/fiorix/go-diameter/v4/diam/sm"
 )
 
 // Serial driver (C08): several connections, instrumented handlers that record
@@ -98,7 +99,9 @@ func runSerialCollect(sc int, c *serialCase, emit func(serialEv)) {
 	gate := make(chan struct{})
 	prog := make(chan struct{}, 256)
 	mux := diam.NewServeMux()
-	mux.HandleFunc("ALL", func(dc diam.Conn, m *diam.Message) {
+	var handlerFn func(dc diam.Conn, m *diam.Message)
+	mux.HandleFunc("ALL", func(dc diam.Conn, m *diam.Message) { handlerFn(dc, m) })
+	handlerFn = func(dc diam.Conn, m *diam.Message) {
 		cc, i := int(m.Header.HopByHopID/100), int(m.Header.HopByHopID%100)
 		mu.Lock()
 		rec("enter", cc, i)
@@ -131,7 +134,7 @@ func runSerialCollect(sc int, c *serialCase, emit func(serialEv)) {
 		case prog <- struct{}{}:
 		default:
 		}
-	})
+	}
 	stop := make(chan struct{})
 	go func() {
 		for {
@@ -144,6 +147,24 @@ func runSerialCollect(sc int, c *serialCase, emit func(serialEv)) {
 	}()
 	conns := make([]feeder, c.Conns+1)
 	var ln *memnet.Listener
+	// via "sm": the connections are accepted by a server whose handler is a state machine; every peer completes the
+	// capabilities exchange first, and all of them present the same Origin-Host (a peer with several connections)
+	var machine *sm.StateMachine
+	if c.Via == "sm" {
+		machine = sm.New(srvSettings)
+		machine.HandleFunc("ALL", func(dc diam.Conn, m *diam.Message) { handlerFn(dc, m) })
+		go func() {
+			for {
+				select {
+				case <-machine.ErrorReports():
+				case <-stop:
+					return
+				}
+			}
+		}()
+		ln = memnet.NewListener()
+		go (&diam.Server{Handler: machine, Dict: dict.Default}).Serve(ln)
+	}
 	if c.Via == "server" || c.Via == "server+wt" {
 		ln = memnet.NewListener()
 		srv := &diam.Server{Handler: mux, Dict: dict.Default}
@@ -195,7 +216,12 @@ func runSerialCollect(sc int, c *serialCase, emit func(serialEv)) {
 			serialHookConns.Store(key, serialHookRef{hl, k})
 			defer serialHookConns.Delete(key)
 		}
-		if c.Via == "server" || c.Via == "server+wt" {
+		if c.Via == "sm" {
+			ln.Push(mc)
+			mc.Feed(gateMsg("cer_ok", uint32(9000+k)))
+			mc.WaitOut(20, 3*time.Second)
+			mc.WaitReaderBlocked(2 * time.Second)
+		} else if c.Via == "server" || c.Via == "server+wt" {
 			ln.Push(mc)
 		} else {
 			diam.NewConn(mc, "10.0.0.2:3868", mux, dict.Default)
